@@ -741,6 +741,12 @@ func (s *c20State) opOpen() {
 	walBefore := s.walDirs()
 	// what the stored manifest says (the oracle's own reading, through the public loader)
 	stored, lerr, _ := s.load()
+	if lerr == nil {
+		if doc := c20Documented(stored); doc != "" {
+			// the loader let an invalid stored configuration through: for the oracle it is invalid
+			lerr = fmt.Errorf("%w: stored configuration violates the documented constraint on %s", config.ErrInvalidConfig, doc)
+		}
+	}
 	var e *engine.EngineFacade
 	var err error
 	panicked := ""
